@@ -26,3 +26,9 @@ impl PtraceDumper {
         Self::may_be_stack(mapping)
     }
 }
+#[cfg(kani)]
+impl PtraceDumper {
+    pub(crate) fn verif_enumerate_mappings(&mut self) -> Result<(), InitError> {
+        self.enumerate_mappings()
+    }
+}
